@@ -340,6 +340,26 @@ impl Prop for C14 {
           None => (build(xs), build(&ys)),
         },
       };
+      // sources of different types at one address (also behind Box / dyn): a user-defined source that holds a library source
+      // inline, compared with that field; two data-less user-defined sources in boxes.  a == b must imply equal hashes
+      // and equal observers here as everywhere.
+      {
+        let (text, name) = match xs.find_orig() {
+          Some((t, n)) => (t, n),
+          None => ("a;\nb".to_string(), "u.js".to_string()),
+        };
+        let w = crate::custom::Inline(rspack_sources::OriginalSource::new(text, name));
+        let (a, b): (&dyn Source, &dyn Source) = (&w, &w.0);
+        for (l, r) in [(a, b), (b, a)] {
+          if l == r && (hash_of(l) != hash_of(r) || l.map(&opts(true, false)).is_some() != r.map(&opts(true, false)).is_some()) {
+            return Err("a user-defined source holding an OriginalSource inline and that OriginalSource (same address, different types) compare equal, yet their hashes or map() differ".into());
+          }
+        }
+        let (n, sc): (Box<dyn Source>, Box<dyn Source>) = (Box::new(crate::custom::Newline), Box::new(crate::custom::Semicolon));
+        if (*n == *sc || *sc == *n) && n.source() != sc.source() {
+          return Err("two boxed data-less user-defined sources of different types compare equal although source() differs".into());
+        }
+      }
       // before any other observer: the cheap scalar answers of a cold object (they must not change later)
       let (size_cold_x, size_cold_y) = (x.size(), y.size());
       // before any observer
